@@ -717,6 +717,9 @@ def gen_case_value(rng, t):
 def replay(ctx, payload):
     from pydra.utils.typing import TypeParser
     generate_coq(ctx)
+    if "case" not in payload:          # a no-failing-input-found report: nothing to re-run, show it
+        print(json.dumps(payload, indent=1)[:4000])
+        return 0
     c = payload["case"]
     world = World()
     try:
